@@ -5,6 +5,7 @@
 (* transformer with a return value; every read path is a set expression.   *)
 (* Graph 0 is the default graph, named graphs are positive integers.       *)
 (* A pattern position 0 means "unbound".                                   *)
+(* The @type comments are for Apalache (ApQuads.tla); TLC ignores them.    *)
 (***************************************************************************)
 EXTENDS Naturals, FiniteSets, Sequences
 
@@ -20,10 +21,15 @@ AllQuad == Subj \X Pred \X Obj \X Graphs
 TypeOK == quads \subseteq AllQuad /\ catalog \subseteq Named
 
 \* ---- state transformers (primed versions are built by the users of this module)
+\* @type: (<<Int, Int, Int, Int>>) => Bool;
 InsertRet(q)      == q \notin quads
+\* @type: (<<Int, Int, Int, Int>>) => Set(<<Int, Int, Int, Int>>);
 InsertQuads(q)    == quads \cup {q}
+\* @type: (<<Int, Int, Int, Int>>) => Set(Int);
 InsertCatalog(q)  == IF q[4] # 0 THEN catalog \cup {q[4]} ELSE catalog
+\* @type: (<<Int, Int, Int, Int>>) => Bool;
 DeleteRet(q)      == q \in quads
+\* @type: (<<Int, Int, Int, Int>>) => Set(<<Int, Int, Int, Int>>);
 DeleteQuads(q)    == quads \ {q}
 GraphExists(g)    == g = 0 \/ g \in catalog
 CreateRet(g)      == g # 0 /\ g \notin catalog
@@ -32,7 +38,9 @@ ClearGraphQuads(g) == {q \in quads : q[4] # g}
 DropRet(g)        == GraphExists(g)
 DropCatalog(g)    == catalog \ {g}
 
+\* @type: (<<Int, Int, Int, Int>>) => Bool;
 Insert(q)      == quads' = InsertQuads(q) /\ catalog' = InsertCatalog(q)
+\* @type: (<<Int, Int, Int, Int>>) => Bool;
 Delete(q)      == quads' = DeleteQuads(q) /\ UNCHANGED catalog
 CreateGraph(g) == catalog' = CreateCatalog(g) /\ UNCHANGED quads
 ClearGraph(g)  == quads' = ClearGraphQuads(g) /\ UNCHANGED catalog
@@ -52,6 +60,7 @@ Next == \/ \E q \in AllQuad : Insert(q) \/ Delete(q)
 Spec == Init /\ [][Next]_avars
 
 \* ---- read paths, as set expressions over (quads, catalog)
+\* @type: (<<Int, Int, Int, Int>>, Int, Int, Int) => Bool;
 Match(q, s, p, o) == (s = 0 \/ q[1] = s) /\ (p = 0 \/ q[2] = p) /\ (o = 0 \/ q[3] = o)
 
 QueryGraph(g, s, p, o)  == {q \in quads : q[4] = g /\ Match(q, s, p, o)}
@@ -59,7 +68,9 @@ QueryGraph(g, s, p, o)  == {q \in quads : q[4] = g /\ Match(q, s, p, o)}
 QueryNamed(s, p, o, vis) == {q \in quads : q[4] # 0 /\ Match(q, s, p, o) /\ (vis = {0} \/ q[4] \in vis)}
 QueryQuadsAny(s, p, o)  == {q \in quads : Match(q, s, p, o)}
 \* merged default graph: triples, duplicate-free
+\* @type: (Set(Int), Int, Int, Int) => Set(<<Int, Int, Int>>);
 QueryMerged(srcs, s, p, o) == {<<q[1], q[2], q[3]>> : q \in {r \in quads : r[4] \in srcs /\ Match(r, s, p, o)}}
+\* @type: (<<Int, Int, Int, Int>>) => Bool;
 Contains(q)             == q \in quads
 GraphsForTriple(s, p, o) == {q[4] : q \in {r \in quads : r[1] = s /\ r[2] = p /\ r[3] = o}}
 NamedGraphs             == catalog
